@@ -70,6 +70,63 @@ theorem cluster_authorised_acts :
         (tr.contains (.resp false) || tr.any (fun e => match e with | .stream _ => true | _ => false))
       | _ => true) = true := by decide +kernel
 
+/-- the same check with a configured store: user `a`/`p` holding `all` -/
+theorem cluster_authorised_acts_with_store :
+    cmds.all (fun c => match requiredOf c.name with
+      | some (some _) =>
+        let tr := runCmd (envOf (some (Auth.put {} ⟨"a", "p", ["all"]⟩)) "a" "p" false true (fun _ => false)) c.body
+        tr.any (fun e => match e with | .action _ => true | _ => false) &&
+        (tr.contains (.resp false) || tr.any (fun e => match e with | .stream _ => true | _ => false))
+      | _ => true) = true := by decide +kernel
+
+/-! ### commands without a required permission
+
+The expectation table declares GET_NODE_META, LOAD_CHUNK and HIGHWATER_MARK_UPDATE
+public (`none`), which removes them from `cluster_no_action_no_data_when_denied`. That
+exclusion is made explicit here: the statement without it, what holds under it, and
+the command for which it fails. -/
+
+/-- full statement: for EVERY command case, when no permission check passes for the
+caller, the node changes no state (read-only metadata calls are allowed), streams
+nothing and does not crash -/
+def every_state_change_needs_permission_full : Prop :=
+  ∀ c ∈ cmds, ∀ env : Env, (∀ p, env (.perm p) = false) → noMutation (runCmd env c.body) = true
+
+theorem state_change_cases_checked :
+    cmds.all (fun c => c.name == "HIGHWATER_MARK_UPDATE" || checkNoPermNoMutation c.body) = true := by
+  decide +kernel
+
+/-- ∀ command case other than HIGHWATER_MARK_UPDATE (in particular the public
+GET_NODE_META and LOAD_CHUNK), ∀ payload, ∀ outcomes of the other conditions: when
+every permission check fails, no state-changing action runs. -/
+theorem every_state_change_needs_permission_partial (c : Cmd) (hc : c ∈ cmds)
+    (hx : c.name ≠ "HIGHWATER_MARK_UPDATE") (env : Env) (h : ∀ p, env (.perm p) = false) :
+    noMutation (runCmd env c.body) = true := by
+  have hall := state_change_cases_checked
+  rw [List.all_eq_true] at hall
+  have := hall c hc
+  simp only [Bool.or_eq_true, beq_iff_eq] at this
+  rcases this with h1 | h1
+  · exact absurd h1 hx
+  · exact checkNoPermNoMutation_sound c.body h1 env h
+
+/-- witness: HIGHWATER_MARK_UPDATE with a payload, no permission check passing, the
+update channel registered and not full: the value is delivered to the CDC service -/
+theorem every_state_change_needs_permission_witness : ¬ every_state_change_needs_permission_full := by
+  intro hfull
+  have hmem : (findCmd "HIGHWATER_MARK_UPDATE").isSome = true := by decide +kernel
+  match hf : findCmd "HIGHWATER_MARK_UPDATE", hmem with
+  | some c, _ =>
+    have hc : c ∈ cmds := List.mem_of_find?_eq_some hf
+    let env : Env := fun a => match a with | .other _ => true | _ => false
+    have := hfull c hc env (fun p => rfl)
+    have hw : (findCmd "HIGHWATER_MARK_UPDATE").map (fun c => noMutation (runCmd env c.body)) = some false := by
+      decide +kernel
+    rw [hf] at hw
+    simp only [Option.map_some, Option.some.injEq] at hw
+    rw [this] at hw
+    exact absurd hw (by decide)
+
 /-! ### HTTP -/
 
 def allowedBeforeGuard : List String :=
@@ -82,6 +139,18 @@ is preceded by nothing but setting the Content-Type header. -/
 theorem http_guard_first : ∀ h ∈ handlers,
     h.pre.all (allowedBeforeGuard.contains ·) = true ∧ h.guardAll.isSome = true ∧ h.negated = true ∧
     h.denyBody = ["w.WriteHeader(http.StatusUnauthorized)", "return"] := by decide
+
+/-- fact obligation: what ServeHTTP does before the routing switch is exactly: set
+the version and CORS headers, announce Basic auth when a store is configured, answer
+OPTIONS with 200 and no body, parse the query parameters (400 on failure) — nothing
+that touches the store or returns data. -/
+theorem http_prelude_shape :
+    RqModel.Gen.HttpRoutes.prelude =
+      ["s.addBuildVersion(w)", "s.addAllowHeaders(w)",
+       "if s.credentialStore != nil { w.Header().Set(\"WWW-Authenticate\", `Basic realm=\"rqlite\"`) }",
+       "if r.Method == http.MethodOptions { w.WriteHeader(http.StatusOK) return }",
+       "params, err := NewQueryParams(r)",
+       "if err != nil { http.Error(w, err.Error(), http.StatusBadRequest) return }"] := by decide
 
 def handlerOK (h : Handler) : Bool :=
   match Auth.lookup expectedHttp h.name with
